@@ -1,17 +1,23 @@
 // drv_refine: histories of node displacements, refinement passes, single remeshing operations and compaction on a
 // real cell, with a full dump of the cell store after every event and the operation trace of the guarded hook.
 // line: <tissue case with ONE cell> R lmin lmax swap NT {face type id per face} NE {event}
+// line: <tissue case with N cells> RM lmin lmax swap threads : refine_meshes on the list with that many threads, against refine_mesh on each cell alone
+//   out : RM N | per cell: alone=<ok|EXC what> <nodes> <faces> <digest> together=<nodes> <faces> <digest> | caller=<NONE|EXC what>
 //   events: G amp seed | S factor | A axis factor | MOM amp seed | FRESH | REFINE | REBASE | OP kind k   (kind 0 split 1 merge 2 swap) | OPL kind (same, on the first edge whose opposite nodes are linked)
 // out : one section per state, separated by " # ":  EV <name> [EXC what] @ nodes @ faces @ edges @ freeN @ freeF @ trace
 #include "tissue.hpp"
 #include "local_mesh_refiner.hpp"
 #include <cstring>
+#include <omp.h>
+#include <functional>
 #include <csignal>
 #include <unistd.h>
 
 struct trace_rec { std::string op; unsigned a,b,c,d,e; };
 static std::vector<trace_rec> g_trace;
+static bool g_trace_on = true;      // off while several threads refine (the trace is a single list)
 extern "C" void simucell3d_verif_trace(const char* op, unsigned cell_id, unsigned a, unsigned b, unsigned c, unsigned d, unsigned e){
+    if (!g_trace_on) return;
     g_trace.push_back({op, a, b, c, d, e});
 }
 
@@ -82,7 +88,31 @@ int main(){
         std::cout.flush(); verif_budget(budget);
         try {
             tissue_case t = read_tissue(in);
-            expect(in, "R"); double lmin = rd(in), lmax = rd(in); int swap; in >> swap;
+            std::string md; in >> md;
+            if (md == "RM"){
+                double lmin = rd(in), lmax = rd(in); int swap, threads; in >> swap >> threads;
+                local_mesh_refiner lmr(lmin, lmax, swap != 0);
+                g_trace_on = false;
+                auto digest = [](cell_ptr c){ std::ostringstream o; size_t nn = 0, nf = 0;
+                    for (const node& n : cell_tester::nodes(c)){ o << n.get_local_id() << (n.is_used()?'u':'f'); if (n.is_used()){ nn++; o << hx(n.pos().dx()) << hx(n.pos().dy()) << hx(n.pos().dz()); } }
+                    for (const face& f : cell_tester::faces(c)){ o << f.get_local_id() << (f.is_used()?'u':'f'); if (f.is_used()){ nf++; auto [a,b,d] = f.get_node_ids(); o << a << ',' << b << ',' << d << ';'; } }
+                    for (const edge& e : c->get_edge_set()) o << e.n1() << '-' << e.n2() << ';';
+                    std::ostringstream r; r << nn << " " << nf << " " << std::hex << std::hash<std::string>{}(o.str()); return r.str(); };
+                auto clean = [](std::string exc){ for (char& ch : exc) if (ch == ' ' || ch == '@' || ch == '#' || ch == '|') ch = '_'; return exc; };
+                std::vector<cell_ptr> alone = build_cells(t, true), together = build_cells(t, true);
+                std::vector<std::string> st;
+                omp_set_num_threads(1);
+                for (cell_ptr c : alone){ try { lmr.refine_mesh(c); st.push_back("ok"); } catch (const std::exception& e){ st.push_back("EXC_" + clean(e.what())); } }
+                omp_set_num_threads(threads);
+                std::string caller = "NONE";
+                try { lmr.refine_meshes(together); } catch (const std::exception& e){ caller = "EXC_" + clean(e.what()); }
+                std::cout << "RM " << alone.size();
+                for (size_t i = 0; i < alone.size(); i++) std::cout << " | alone=" << st[i] << " " << digest(alone[i]) << " together=" << digest(together[i]);
+                std::cout << " | caller=" << caller << "\n";
+                g_trace_on = true; verif_budget(0); continue;
+            }
+            if (md != "R") throw std::runtime_error("expected R");
+            double lmin = rd(in), lmax = rd(in); int swap; in >> swap;
             int nt; in >> nt; std::vector<int> ty(nt); for (auto& x : ty) in >> x;
             int ne; in >> ne;
             cell_ptr c = make_cell(t.meshes[0], 0u, t.types[t.cell_type_index[0]]);
